@@ -1078,6 +1078,9 @@ inline url::url(url&& other) noexcept
 }
 
 inline url& url::operator=(url&& other) UPA_NOEXCEPT_17 {
+    // self-move leaves the object as it is
+    if (this == std::addressof(other))
+        return *this;
     // move data
     move_record(other);
     search_params_ptr_ = std::move(other.search_params_ptr_);
@@ -1089,6 +1092,9 @@ inline url& url::operator=(url&& other) UPA_NOEXCEPT_17 {
 }
 
 inline url& url::safe_assign(url&& other) {
+    // self-assignment leaves the object as it is
+    if (this == std::addressof(other))
+        return *this;
     if (search_params_ptr_) {
         if (other.search_params_ptr_) {
             move_record(other);
